@@ -2212,3 +2212,396 @@ def families():
     return [DenseSparse(), TenmatFam(), SptenmatFam(), SptenmatCtor(), KruskalFull(),
             DerivedDense(), DerivedSparse(), DirectMatrices(), DerivedHolders(),
             Reports(), DoubleAll(), Chains(), KtensorTenmat(), TenmatCtor()]
+
+
+# ---------------------------------------------------------------------------------------------
+# Third batch (added after the mutation run, mutants M1458 / M1971): conversions that involve scipy.sparse.
+#   spmatrix   sptensor.spmatrix(): a 2-way sptensor -> scipy.sparse.coo_matrix.  The matrix must denote the same array
+#              (reference: the dense matrix the operand's history denotes; model: the proved sparse -> dense model `sp_full`
+#              applied to the stored form), report the shape and the number of non-zero entries, hold exactly the non-zero
+#              entries as triples, and leave the tensor as it was.  Operands: no / one / some / all entries non-zero in
+#              sorted / reversed / shuffled stored order, value dtypes, singleton modes, 1x1, and operands with a history
+#              (every entry deleted again, filled from empty in unsorted order, grown, transposed, from an all-zero or
+#              grown dense tensor).  Sparse tensors that are not 2-way (order 0, 1, 3, also 3-way with singleton modes)
+#              have no matrix: the call must be refused.  spmatrix has no Lean model of its own (the result is a scipy
+#              object); its denotation is compared with the model of sptensor.full.
+#   tucker_sf  a Tucker tensor whose factor matrices are scipy.sparse coo matrices (the constructor accepts them; all /
+#              one / some of the modes, empty coo matrices, dense and sparse core, copy and no copy) -> dense through
+#              full / double / to_tensor against the sum formula and the proved model (`c02_full`); and - because this
+#              is the one family that builds such holders - what the holder answers to reconstruct (everything, index
+#              vectors with repeats, scalars, mixing matrices), ttm (+ transpose) followed by full, isequal with its
+#              own copy / the same tensor with numpy factors / a tensor that differs in one entry of a sparse factor.
+#              (ttm / reconstruct belong to C02, they are asserted here against plain numpy only.)
+# Appended as a wrapper around families() so that nothing above had to be edited.
+# ---------------------------------------------------------------------------------------------
+import scipy.sparse as _sps  # noqa: E402
+
+
+def _spm_sources(rng, tier):
+    out = []
+
+    def add(label, b, steps):
+        out.append((label, {"base": b, "steps": steps}))
+
+    def nv():
+        return rng.randint(31, 59)
+
+    def stored(s, klass, order):
+        subs, vals = gen.sparse_entries(rng, s, klass, order)
+        return {"shape": list(s), "subs": subs, "vals": vals}
+
+    quick = tier == "quick"
+    shapes = [[1, 1], [1, 4], [4, 1], [2, 3], [3, 2], [3, 3], [2, 2]]
+    shapes += [[rng.randint(1, 5), rng.randint(1, 5)] for _ in range(4 if quick else 40)]
+    for s in shapes:
+        cells = gen.all_subs(s)
+        for klass in ("empty", "one", "some", "all"):
+            orders = ["-"] if klass in ("empty", "one") else (["sorted", "reversed", "shuffled"] if not quick or len(cells) <= 6
+                                                              else [rng.choice(["sorted", "reversed", "shuffled"])])
+            for o in orders:
+                b = stored(s, klass, None if o == "-" else o)
+                b.update(lay=rng.choice(["C", "F", "strided"]), vlay=rng.choice(["C", "strided"]),
+                         dtype=rng.choice(["f8", "f8", "i8", "f4"]), copy=rng.random() < 0.7)
+                add(f"stored-{klass}-{o}", b, [])
+        # operands with a history
+        one = stored(s, "one", None)
+        add("emptied-one", one, [{"op": "set1", "key": one["subs"][0], "val": 0}])
+        if len(cells) >= 2:
+            some = stored(s, "some", "shuffled")
+            while len(some["subs"]) < 2:
+                some = stored(s, "all", "shuffled")
+            add("emptied-all", some, [{"op": "set1", "key": k, "val": 0} for k in some["subs"]])
+            add("overwrite-delete", some, [{"op": "set1", "key": some["subs"][0], "val": nv()},
+                                           {"op": "set1", "key": some["subs"][-1], "val": 0}])
+            order = list(cells)
+            rng.shuffle(order)
+            k = max(2, len(order) // 2)
+            add("assign-unsorted", {"shape": list(s)}, [{"op": "set1", "key": key, "val": (-1) ** j * nv()}
+                                                        for j, key in enumerate(order[:k])])
+            add("assign-subs-array", {"shape": list(s)}, [{"op": "subs", "subs": order[:k],
+                                                           "vals": [(-1) ** j * nv() for j in range(k)]}])
+            add("grown", some, [{"op": "set1", "key": list(s), "val": nv()}])
+            add("grown-first", some, [{"op": "set1", "key": [s[0] + 1, 0], "val": -nv()}])
+            add("transposed", some, [{"op": "permute", "order": [1, 0]}])
+            add("transposed-empty", {"shape": list(s)}, [{"op": "permute", "order": [1, 0]}])
+        zs = {"base": {"shape": list(s), "data": [0] * len(cells), "lay": "F", "dtype": "f8", "copy": True}, "steps": []}
+        add("from-dense-zero", {"dense": zs}, [])
+        ds = {"base": {"shape": list(s), "data": _distinct_data(rng, s, 0.5), "lay": rng.choice(["F", "C"]), "dtype": "f8",
+                       "copy": True}, "steps": []}
+        add("from-dense", {"dense": ds}, [])
+        add("from-grown-dense", {"dense": {"base": ds["base"], "steps": [{"op": "set1", "key": list(s), "val": nv()}]}}, [])
+    add("empty-fill", None, [{"op": "set1", "key": [1, 2], "val": nv()}, {"op": "set1", "key": [0, 1], "val": -nv()},
+                             {"op": "set1", "key": [2, 0], "val": nv()}])
+    add("empty-fill-subs", None, [{"op": "subs", "subs": [[1, 0], [0, 2]], "vals": [nv(), -nv()]}])
+    # not 2-way: no matrix
+    add("order0", None, [])
+    for s in ([3], [1], [2, 3, 1], [1, 2, 3], [2, 2, 2], [1, 1, 1], [2, 1, 1, 2]):
+        for klass in ("empty", "one", "some"):
+            add(f"notmatrix-N{len(s)}-{klass}", stored(s, klass, None), [])
+    return out
+
+
+def _tucker_sf_cases(rng, tier):
+    out = []
+    quick = tier == "quick"
+    cshapes = [[2], [2, 3], [3, 1, 2], [2, 2, 2]] + ([] if quick else [[3, 2], [2, 3, 2], [1, 2, 2, 2]])
+    cshapes += [gen.shape(rng, 1, 3, 3) for _ in range(3 if quick else 25)]
+    for cs in cshapes:
+        N = len(cs)
+        for rep_ in range(2 if quick else 4):
+            data = gen.dense_data(rng, cs, rng.choice([0.0, 0.3, 0.6]))
+            if rep_ == 1 and rng.random() < 0.3:
+                data = [0] * len(data)
+            facs = [gen.matrix(rng, rng.randint(1, 4), m, -3, 3, 0.5) for m in cs]
+            if rng.random() < 0.25:
+                k = rng.randrange(N)
+                facs[k] = [[0] * cs[k] for _ in facs[k]]          # a coo matrix without entries
+            pat = rng.choice(["all", "all", "one", "some"])
+            if pat == "all":
+                sf = [True] * N
+            elif pat == "one":
+                j = rng.randrange(N)
+                sf = [k == j for k in range(N)]
+            else:
+                sf = [rng.random() < 0.5 for _ in range(N)]
+                sf[rng.randrange(N)] = True
+            base = {"k": "tucker_sf", "core": {"shape": list(cs), "data": data}, "core_rep": rng.choice(["dense", "sparse"]),
+                    "factors": facs, "sf": sf, "pat": pat}
+            shape = [len(f) for f in facs]
+            for copy in (True, False):
+                out.append(dict(base, op="dense", copy=copy))
+            # reconstruct: everything / per-mode samples of every kind
+            out.append(dict(base, op="reconstruct", copy=True, modes=None, samples=None))
+            for _ in range(2 if quick else 4):
+                modes = rng.sample(range(N), rng.randint(1, N))
+                samples = []
+                for k in modes:
+                    kind = rng.choice(["idx", "idx", "scalar", "mix"])
+                    if k == modes[0] and sf[k] and rng.random() < 0.5:
+                        kind = rng.choice(["idx", "mix"])
+                    if kind == "scalar":
+                        samples.append({"scalar": rng.randrange(shape[k])})
+                    elif kind == "idx":
+                        samples.append({"idx": [rng.randrange(shape[k]) for _ in range(rng.randint(1, 4))]})
+                    else:
+                        samples.append({"mix": gen.matrix(rng, rng.randint(1, 3), shape[k], -2, 2, 0.3)})
+                out.append(dict(base, op="reconstruct", copy=rng.random() < 0.7, modes=modes, samples=samples))
+            # ttm in one mode / several modes, also transposed
+            for _ in range(2 if quick else 4):
+                modes = sorted(rng.sample(range(N), rng.randint(1, N)))
+                tr = rng.random() < 0.4
+                mats = [gen.matrix(rng, rng.randint(1, 3), shape[k], -2, 2, 0.3) for k in modes]
+                out.append(dict(base, op="ttm", copy=rng.random() < 0.7, modes=modes, mats=mats, transpose=tr))
+            for other in ("copy", "numpy-factors", "one-entry-differs"):
+                out.append(dict(base, op="isequal", copy=True, other=other))
+    return out
+
+
+def _tucker_sf_build(c, factors=None, sf=None):
+    cj = c["core"]
+    core = gen.mk_tensor(ttb, cj["shape"], cj["data"])
+    if c["core_rep"] == "sparse":
+        core = core.to_sptensor()
+    factors = c["factors"] if factors is None else factors
+    sf = c["sf"] if sf is None else sf
+    facs = []
+    for k, (F_, on) in enumerate(zip(factors, sf)):
+        A = np.asfortranarray(np.array(F_, dtype=float).reshape(len(F_), cj["shape"][k]))
+        facs.append(_sps.coo_matrix(A) if on else A)
+    return ttb.ttensor(core, facs, copy=c.get("copy", True))
+
+
+def _tucker_sf_ref(c):
+    """the array the Tucker tensor denotes (sum formula, exact integers) as an object ndarray"""
+    cj = c["core"]
+    A = np.array(cj["data"], dtype=object).reshape(tuple(cj["shape"]), order="F")
+    for k, F_ in enumerate(c["factors"]):
+        U = np.array(F_, dtype=object).reshape(len(F_), cj["shape"][k])
+        A = np.moveaxis(np.tensordot(U, A, axes=(1, k)), 0, k)
+    return A
+
+
+def _obj_j(A):
+    A = np.asarray(A, dtype=object)
+    return {"shape": [int(v) for v in A.shape], "data": jval([A[tuple(i)] for i in gen.all_subs(list(A.shape))])}
+
+
+class ScipySparse(Family):
+    """conversions that involve scipy.sparse: sptensor.spmatrix, and Tucker tensors with scipy.sparse factor matrices"""
+    name = "scipy_sparse"
+    theorems = ("C01_sp_full_at", "C01_tucker_full", "C01_double_sptensor", "C01_double_ttensor")
+
+    def gen(self, rng, tier):
+        out = [{"k": "spmatrix", "label": lb, "src": src} for lb, src in _spm_sources(rng, tier)]
+        out += _tucker_sf_cases(rng, tier)
+        return out
+
+    def shrink(self, case):
+        if case["k"] == "spmatrix":
+            st = case["src"]["steps"]
+            for k in range(len(st) - 1, -1, -1):
+                yield {**case, "src": {"base": case["src"]["base"], "steps": st[:k] + st[k + 1:]}}
+        elif any(case["sf"]) and sum(case["sf"]) > 1:
+            for k, on in enumerate(case["sf"]):
+                if on:
+                    yield {**case, "sf": [o and j != k for j, o in enumerate(case["sf"])]}
+
+    # -- spmatrix -----------------------------------------------------------------------------
+    @staticmethod
+    def _spm_impl(c):
+        with _quiet():
+            built = call(build_sparse, c["src"])
+            if "ok" not in built:
+                return {"operand": built}
+            S = built["ok"]
+            info = {"operand": call(read_sparse, S), "stored": call(sparse_j, S), "ndims": int(S.ndims)}
+
+            def conv(S=S):
+                M = S.spmatrix()
+                A = M.toarray()
+                M2 = M.tocoo()
+                tri = {"shape": [int(v) for v in M.shape],
+                       "subs": [[int(a), int(b)] for a, b in zip(M2.row, M2.col)], "vals": jval(np.asarray(M2.data).reshape(-1))}
+                return {"sparse": bool(_sps.issparse(M)), "format": getattr(M, "format", None), "shape": [int(v) for v in M.shape],
+                        "nnz": int(M.nnz), "array": read_matrix(A), "triples": tri, "after": read_sparse(S)}
+            info["res"] = call(conv)
+        return info
+
+    def _spm_verdict(self, c, sim, impl, m):
+        tags = ["spmatrix", c.get("label", "?")]
+        if sim is None:
+            return Verdict("ok", "recipe without a meaning", None, None, None, tags + ["void-recipe"], False)
+        want = sparse_sorted_j(sim.sparse_j())
+        x = sim.dense_j()
+        N = len(x["shape"])
+        tags += [f"N{N}", f"nnz{min(len(want['subs']), 3)}"]
+        if "res" not in impl or "ok" not in impl["operand"] or not deep_eq(sparse_sorted_j(impl["operand"]["ok"]), want):
+            return Verdict("ok", "the operand itself is not what its history says (not a conversion)", impl, m, want,
+                           tags + ["operand-mismatch"], False)
+        res = impl["res"]
+        if N != 2:
+            if "ok" in res:
+                return Verdict("violation", f"spmatrix of a {N}-way sptensor returned a matrix", impl, m, want, tags + ["not-2-way"], False)
+            return Verdict("ok", "", strip_exc(res), m, want, tags + ["not-2-way", "refused"], False)
+        nt = gen.numel(x["shape"]) > 1
+        if "ok" not in res:
+            return Verdict("violation", f"sptensor.spmatrix raised on a 2-way sptensor with {len(want['subs'])} non-zero entries: "
+                                        f"{res.get('exc')} {res.get('msg')}", impl, m, want, tags, nt)
+        r = res["ok"]
+        bad = None
+        if not r["sparse"] or r["format"] != "coo":
+            bad = "sptensor.spmatrix did not return a scipy.sparse COO matrix"
+        elif r["shape"] != x["shape"] or r["array"]["shape"] != x["shape"]:
+            bad = "the scipy matrix reports another shape than the tensor"
+        elif not deep_eq(r["array"], x):
+            bad = "sparse tensor -> scipy.sparse matrix does not denote the same array"
+        elif m is None or not deep_eq(r["array"], m):
+            bad = "the scipy matrix differs from the proved model of sparse -> dense"
+        elif r["nnz"] != len(want["subs"]):
+            bad = "the scipy matrix reports another number of non-zeros than the array has"
+        elif not deep_eq(sparse_sorted_j(r["triples"]), want):
+            bad = "the triples of the scipy matrix are not the non-zero entries"
+        elif not deep_eq(sparse_sorted_j(r["after"]), want):
+            bad = "spmatrix changed the tensor"
+        return Verdict("violation" if bad else "ok", bad or "", impl, m, want, tags, nt)
+
+    # -- Tucker tensors with scipy.sparse factor matrices ---------------------------------------
+    @staticmethod
+    def _tk_impl(c):
+        def f():
+            X = _tucker_sf_build(c)
+            types = [type(F_).__name__ for F_ in X.factor_matrices]
+            op = c["op"]
+            if op == "dense":
+                return {"types": types, "shape": [int(v) for v in X.shape], "full": read_dense(X.full()),
+                        "double": read_matrix(X.double()), "to_tensor": read_dense(X.to_tensor())}
+            if op == "reconstruct":
+                if c["modes"] is None:
+                    return {"types": types, "out": read_dense(X.reconstruct())}
+                samples = []
+                for sm in c["samples"]:
+                    if "scalar" in sm:
+                        samples.append(int(sm["scalar"]))
+                    elif "idx" in sm:
+                        samples.append(np.array(sm["idx"], dtype=int))
+                    else:
+                        samples.append(np.array(sm["mix"], dtype=float).reshape(len(sm["mix"]), -1))
+                if len(samples) == 1 and "scalar" not in c["samples"][0]:
+                    return {"types": types, "out": read_dense(X.reconstruct(samples[0], c["modes"][0]))}
+                return {"types": types, "out": read_dense(X.reconstruct(samples, list(c["modes"])))}
+            if op == "ttm":
+                mats = [np.array(M, dtype=float).reshape(len(M), -1) for M in c["mats"]]
+                if c["transpose"]:
+                    mats = [np.asfortranarray(M.T) for M in mats]
+                if len(mats) == 1:
+                    Y = X.ttm(mats[0], int(c["modes"][0]), transpose=c["transpose"])
+                else:
+                    Y = X.ttm(mats, np.array(c["modes"], dtype=int), transpose=c["transpose"])
+                return {"types": types, "out": read_dense(Y.full())}
+            # isequal
+            if c["other"] == "copy":
+                Y, want = X.copy(), True
+            elif c["other"] == "numpy-factors":
+                Y, want = _tucker_sf_build(c, sf=[False] * len(c["sf"])), True
+            else:
+                k = c["sf"].index(True)
+                F2 = [[list(r_) for r_ in F_] for F_ in c["factors"]]
+                F2[k][-1][-1] += 1
+                Y, want = _tucker_sf_build(c, factors=F2), False
+            return {"types": types, "eq": bool(X.isequal(Y)), "eq_rev": bool(Y.isequal(X)), "want": want}
+        with _quiet():
+            return call(f)
+
+    @staticmethod
+    def _tk_spec(c):
+        A = _tucker_sf_ref(c)
+        op = c["op"]
+        if op == "reconstruct" and c["modes"] is not None:
+            for k, sm in zip(c["modes"], c["samples"]):
+                if "scalar" in sm:
+                    A = np.take(A, [sm["scalar"]], axis=k)
+                elif "idx" in sm:
+                    A = np.take(A, sm["idx"], axis=k)
+                else:
+                    A = np.moveaxis(np.tensordot(np.array(sm["mix"], dtype=object), A, axes=(1, k)), 0, k)
+        elif op == "ttm":
+            for k, M in zip(c["modes"], c["mats"]):
+                A = np.moveaxis(np.tensordot(np.array(M, dtype=object), A, axes=(1, k)), 0, k)
+        return _obj_j(A)
+
+    def _tk_verdict(self, c, impl, m):
+        op = c["op"]
+        tags = ["tucker_sf", "op=" + op, f"N{len(c['sf'])}", "factors-sparse-" + c["pat"], "core-" + c["core_rep"],
+                "copy" if c.get("copy", True) else "nocopy"]
+        if op == "reconstruct":
+            tags.append("samples=" + ("all" if c["modes"] is None else "+".join(sorted({next(iter(s_)) for s_ in c["samples"]}))))
+        if op == "isequal":
+            tags.append(c["other"])
+        spec = self._tk_spec(c) if op != "isequal" else None
+        what = {"dense": "Tucker tensor with scipy.sparse factor matrices -> dense",
+                "reconstruct": "ttensor.reconstruct with scipy.sparse factor matrices",
+                "ttm": "ttensor.ttm with scipy.sparse factor matrices", "isequal": "ttensor.isequal with scipy.sparse factor matrices"}[op]
+        if "ok" not in impl:
+            return Verdict("violation", f"{what} raised: {impl.get('exc')} {impl.get('msg')}", impl, m, spec, tags, True)
+        r = impl["ok"]
+        want_types = ["coo_matrix" if on else "ndarray" for on in c["sf"]]
+        bad = None
+        if r["types"] != want_types:
+            return Verdict("ok", "the constructor did not keep the factor matrices as handed over (not a conversion)", impl, m, spec,
+                           tags + ["operand-mismatch"], False)
+        if op == "dense":
+            mj = (m.get("model") or {}).get("ok") if m else None
+            for k in ("full", "double", "to_tensor"):
+                if not deep_eq(r[k], spec):
+                    bad = bad or f"{what} ({k}) is not the array the object denotes"
+            if not bad and r["shape"] != spec["shape"]:
+                bad = f"{what}: the holder reports another shape"
+            if not bad and (mj is None or not deep_eq(r["full"], {"shape": mj["shape"], "data": mj["data"]})):
+                bad = "ttensor.full differs from the proved model"
+        elif op in ("reconstruct", "ttm"):
+            if not deep_eq(r["out"], spec):
+                bad = f"{what} is not the " + ("sampled array" if op == "reconstruct" else "mode product of the array") + " the object denotes"
+        else:
+            if r["eq"] != r["want"] or r["eq_rev"] != r["want"]:
+                bad = f"{what}: answers {r['eq']} / {r['eq_rev']} for {c['other']}, the arrays are {'equal' if r['want'] else 'different'}"
+        return Verdict("violation" if bad else "ok", bad or "", impl, m, spec, tags, True)
+
+    def evaluate(self, cases):
+        sims, impls, reqs = [], [], []
+        for c in cases:
+            if c["k"] == "spmatrix":
+                try:
+                    sim = ref_sparse(c["src"])
+                except Exception:  # noqa: BLE001
+                    sim = None
+                sims.append(sim)
+                impl = self._spm_impl(c) if sim is not None else None
+                impls.append(impl)
+                ok = impl is not None and "stored" in impl and "ok" in impl["stored"] and impl.get("ndims") == 2
+                reqs.append({"op": "sp_full", "S": impl["stored"]["ok"]} if ok else None)
+            else:
+                sims.append(None)
+                impls.append(self._tk_impl(c))
+                reqs.append({"op": "c02_full", "X": {"kind": "tucker", "core": c["core"], "factors": c["factors"]}}
+                            if c["op"] == "dense" else None)
+        replies = iter(drive([r for r in reqs if r is not None]))
+        models = [next(replies) if r is not None else None for r in reqs]
+        out = []
+        for c, sim, impl, m in zip(cases, sims, impls, models):
+            out.append(self._spm_verdict(c, sim, impl, m) if c["k"] == "spmatrix" else self._tk_verdict(c, impl, m))
+        return out
+
+
+_families_before_scipy_sparse = families
+
+
+def families():  # noqa: F811
+    return _families_before_scipy_sparse() + [ScipySparse()]
+
+
+RULE = RULE + ("; third batch (scipy_sparse): sptensor.spmatrix on 2-way sptensors of every sparsity class x stored order x value "
+               "dtype incl. 1x1 / singleton modes and operands with a history (emptied again, filled from empty, grown, transposed, "
+               "from an all-zero / grown dense tensor), sptensors of order 0 / 1 / 3 / 4 (must be refused); Tucker tensors with "
+               "scipy.sparse coo factor matrices (all / one / some modes, empty coo matrices, dense / sparse core, copy / no copy) "
+               "through full / double / to_tensor, reconstruct (all, index vectors, scalars, mixing matrices), ttm (+ transpose), "
+               "isequal")
